@@ -17,6 +17,7 @@ EXPLANATION = (
     "(dest > 255, PGN > 18 bits) are outside it."
     " The PF predicates may have any shape: both functions are evaluated per value of the bits their predicates consult (bitprov.cases; order comparisons decided from bounds), so `pf < 0xF0`, `pf >= 240`, `pgn & 0xFF00 < 0xF000`, helper functions and early returns are the same to the rule. ID-ACT and ID-BYTES are decided by composing each writer with its reader over symbolic inputs."
     ' Fifth round: [ID-USE built-afresh] one direct call of _build_header, or the writer interpreted on an encoder without cached state reaches _build_header exactly once through undecorated helpers.'
+    ' Eighth round: [ID-USE] when a writer tests the addressing values themselves (`x or default`, range tests) it is interpreted on two concrete addressings (source, destination, priority all zero; none zero) and _build_header must receive exactly those values.'
 )
 ASSUMPTIONS = ["CPython ast parser", "bitprov.py transfer functions for & | << >> on non-negative ints", "sym.py def-use substitution",
                "inputs are within their declared widths (priority 3, source 8, dest 8, PGN 18 bits)"]
